@@ -443,9 +443,31 @@ class Gen:
         return root
 
 
+def extreme_scale_node(g, r):
+    """Content drawn in very large (or very small) units and brought back by a strong scale:
+    invertible matrices with a tiny or huge determinant."""
+    s = r.choice((2e-5, 1e-4, 1e-3, 250.0, 4000.0))
+    inv = 1.0 / s
+    x, y, w, h = (g.num(10, 60) * inv, g.num(10, 60) * inv, g.num(10, 30) * inv, g.num(10, 30) * inv)
+    shape = Node("rect", {"x": repr(x), "y": repr(y), "width": repr(w), "height": repr(h), "fill": g.color()})
+    k = r.random()
+    g.f["extreme_scale"] += 1
+    if k < 0.4:
+        return Node("g", {"transform": f"scale({s!r})"}, [shape])
+    if k < 0.7 and s < 1:
+        side = 100.0 * inv
+        return Node("svg", {"x": "10", "y": "10", "width": "80", "height": "80", "viewBox": f"0 0 {side!r} {side!r}", "overflow": "visible"},
+                    [Node("rect", {"x": repr(0.2 * side), "y": repr(0.3 * side), "width": repr(0.4 * side), "height": repr(0.3 * side), "fill": g.color()})])
+    shape.attrs = {"id": g.new_id("xs"), **shape.attrs}
+    return Node("g", {}, [Node("defs", {}, [shape]), Node("use", {"xlink:href": "#" + shape.attrs["id"], "transform": f"scale({s!r})"})])
+
+
 def structural(rng, **opt):
     g = Gen(rng, **opt)
-    root = g.document()
+    body = [g.node(0) for _ in range(rng.randint(2, 5))]
+    if rng.random() < 0.08:
+        body.insert(rng.randint(0, len(body)), extreme_scale_node(g, rng))
+    root = g.document(body_nodes=body)
     return to_xml(root), g.f, root
 
 
@@ -693,9 +715,14 @@ def stroke_doc(rng, hairpins=False):
             p0 = (g.num(10, 40, 0), g.num(10, 90, 0))
             d = f"M{fnum(p0[0])},{fnum(p0[1])}"
             for _ in range(r.randint(1, 3)):
-                c = r.choice("CQL")
+                c = r.choice("CQLA")
                 n_ = lambda: fnum(g.num(5, 95, 0))
-                if c == "C":
+                if c == "A":
+                    # rotated, non-circular arcs, often with radii too small for the chord (they get scaled up)
+                    d += (f" A{fnum(g.num(22, 30, 0))} {fnum(g.num(22, 30, 0))} {fnum(r.choice((0, 30, 45, 60, 120, -20, g.num(-180, 180, 0))))} "
+                          f"{r.randint(0, 1)} {r.randint(0, 1)} {n_()},{n_()}")
+                    g.f["stroked_arc"] += 1
+                elif c == "C":
                     d += f" C{n_()},{n_()} {n_()},{n_()} {n_()},{n_()}"
                 elif c == "Q":
                     d += f" Q{n_()},{n_()} {n_()},{n_()}"
